@@ -737,6 +737,22 @@ def _returns_to_reraise(stmts):
     return out
 
 
+def _builtin_method_names():
+    """attribute names of the objects of the standard library that the package passes around (containers, strings, match objects,
+    streams, locks, syntax-tree nodes): a call `x.<name>(...)` on an unknown receiver may be one of those, never assumed to be a new method"""
+    import io
+    import re as _re
+    import threading
+    out = set()
+    for o in (dict, list, set, frozenset, str, bytes, tuple, int, object, io.StringIO, io.BytesIO, type(_re.compile("")), type(_re.match("", "")),
+              type(threading.Lock()), type(threading.RLock()), BaseException, type(iter(())), type(x for x in ())):
+        out.update(n for n in dir(o) if not n.startswith("__"))
+    return frozenset(out)
+
+
+_BUILTIN_METHOD_NAMES = _builtin_method_names()
+
+
 def _pure_chain(e):
     """a name or a chain of attribute reads on a name"""
     while isinstance(e, ast.Attribute):
@@ -1022,6 +1038,25 @@ class Inliner:
                 self.stats.setdefault("with", []).append(mn + "." + cd.name)
         return changed
 
+    def _visitor_protocol_ok(self):
+        """every accept_visitor of the package uses its visitor only to look up a visit* method on it (getattr(visitor, "visit" + ...))
+        or to hand it to another accept_visitor"""
+        if not hasattr(self, "_vp_ok"):
+            ok, seen = True, 0
+            for t in self.trees.values():
+                for f in ast.walk(t):
+                    if isinstance(f, ast.FunctionDef) and f.name == "accept_visitor" and len(f.args.args) == 2:
+                        seen += 1
+                        p_ = f.args.args[1].arg
+                        for n in ast.walk(f):
+                            if isinstance(n, ast.Name) and n.id == p_ and isinstance(n.ctx, ast.Load):
+                                par = [c for c in ast.walk(f) if isinstance(c, ast.Call) and n in c.args]
+                                good = any((isinstance(c.func, ast.Name) and c.func.id == "getattr" and c.args[0] is n and len(c.args) >= 2 and "visit" in ast.unparse(c.args[1]))
+                                           or (isinstance(c.func, ast.Attribute) and c.func.attr == "accept_visitor" and len(c.args) == 1) for c in par)
+                                ok = ok and good
+            self._vp_ok = ok and seen > 0
+        return self._vp_ok
+
     def _dissolve_locals(self, fn, fq, mn, cls):
         """v = C(args)  (C a new class; v named once and used only as v.field / v.method(...)):
         the constructor and the methods are unfolded at their call sites and the fields become local variables"""
@@ -1043,7 +1078,12 @@ class Inliner:
             names = [n for n in ast.walk(fn) if isinstance(n, ast.Name) and n.id == v]
             attrs = [a for a in ast.walk(fn) if isinstance(a, ast.Attribute) and isinstance(a.value, ast.Name) and a.value.id == v]
             same = [n for n in _walk_same_function(fn) if isinstance(n, ast.Name) and n.id == v]
-            if len(same) != len(names) or sum(1 for n in names if isinstance(n.ctx, (ast.Store, ast.Del))) != 1 or len(attrs) != len(names) - 1:
+            # the object may be handed to the parse tree's visitor protocol (X.accept_visitor(v)), which only ever calls its visit* methods
+            escapes = [c.args[0] for c in ast.walk(fn) if isinstance(c, ast.Call) and isinstance(c.func, ast.Attribute) and c.func.attr == "accept_visitor" and len(c.args) == 1 and not c.keywords
+                       and isinstance(c.args[0], ast.Name) and c.args[0].id == v] if self._visitor_protocol_ok() else []
+            if len(same) != len(names) or sum(1 for n in names if isinstance(n.ctx, (ast.Store, ast.Del))) != 1 or len(attrs) + len(escapes) != len(names) - 1:
+                continue
+            if escapes and (_in_loop(fn, asg) or any(m_.decorator_list for m_ in methods.values())):
                 continue
             if any(isinstance(a, ast.arg) and a.arg == v for a in ast.walk(fn)):
                 continue
@@ -1068,6 +1108,8 @@ class Inliner:
             # construction and the with-protocol are unfolded here
             named = {}
             todo = [a.attr for a in attrs if a.attr in methods and not a.attr.startswith("__")]
+            if escapes:
+                todo = []
             while todo:
                 m_ = todo.pop()
                 if m_ in named:
@@ -1082,7 +1124,8 @@ class Inliner:
             taken0 = {n.id for n in ast.walk(trial) if isinstance(n, ast.Name)} | {a.arg for a in ast.walk(trial) if isinstance(a, ast.arg)} | {f.name for f in ast.walk(trial) if isinstance(f, ast.FunctionDef)}
             if any(n_ in taken0 for n_ in named):
                 continue
-            all_attrs = {a.attr for a in attrs} | {a.attr for m_ in list(named.values()) + [methods[k] for k in ("__init__", "__enter__", "__exit__") if k in methods] if not m_.decorator_list
+            residual = {k: m_ for k, m_ in methods.items() if not k.startswith("__")} if escapes else {}
+            all_attrs = {a.attr for a in attrs} | {a.attr for m_ in list(named.values()) + list(residual.values()) + [methods[k] for k in ("__init__", "__enter__", "__exit__") if k in methods] if not m_.decorator_list
                                                      for a in ast.walk(m_) if isinstance(a, ast.Attribute) and isinstance(a.value, ast.Name) and a.value.id == m_.args.args[0].arg}
             fieldnames = {}
             for f_ in sorted(all_attrs - set(methods)):
@@ -1111,6 +1154,29 @@ class Inliner:
                     args_.args = args_.args[1:]
                 fd_ = ast.FunctionDef(name=n_, args=args_, body=body_, decorator_list=[], returns=None, type_comment=None, type_params=[])
                 defs.append(ast.fix_missing_locations(ast.copy_location(fd_, m_)))
+            if residual:
+                # the object itself stays, as a bundle of methods closed over the field variables (a class local to the function)
+                lname = "_L" + cd.name
+                if lname in taken0:
+                    continue
+                mdefs = []
+                for n_, m_ in residual.items():
+                    sp_ = m_.args.args[0].arg
+
+                    class G2(ast.NodeTransformer):
+                        def visit_Attribute(self_, node):
+                            if isinstance(node.value, ast.Name) and node.value.id == sp_ and node.attr in fieldnames:
+                                return ast.copy_location(ast.Name(id=fieldnames[node.attr], ctx=node.ctx), node)
+                            return self_.generic_visit(node)
+                    body_ = [G2().visit(b_) for b_ in copy.deepcopy(m_.body)]
+                    st_ = sorted({x.id for b_ in body_ for x in ast.walk(b_) if isinstance(x, ast.Name) and isinstance(x.ctx, (ast.Store, ast.Del)) and x.id in fieldnames.values()})
+                    if st_:
+                        body_.insert(0, ast.Nonlocal(names=st_))
+                    fd_ = ast.FunctionDef(name=n_, args=copy.deepcopy(m_.args), body=body_, decorator_list=[], returns=None, type_comment=None, type_params=[])
+                    mdefs.append(ast.fix_missing_locations(ast.copy_location(fd_, m_)))
+                lcls = ast.ClassDef(name=lname, bases=[], keywords=[], body=mdefs or [ast.Pass()], decorator_list=[], type_params=[])
+                mk = ast.Assign(targets=[ast.Name(id=v, ctx=ast.Store())], value=ast.Call(func=ast.Name(id=lname, ctx=ast.Load()), args=[], keywords=[]))
+                defs = [ast.fix_missing_locations(ast.copy_location(lcls, t_asg)), ast.fix_missing_locations(ast.copy_location(mk, t_asg))]
             if defs:
                 for lst in _stmt_lists(trial):
                     if init in lst:
@@ -1129,7 +1195,12 @@ class Inliner:
                 self._objs = {}
             left = [a for a in ast.walk(trial) if isinstance(a, ast.Attribute) and isinstance(a.value, ast.Name) and a.value.id == v]
             bare = [n for n in ast.walk(trial) if isinstance(n, ast.Name) and n.id == v]
-            if any(a.attr in methods for a in left) or len(bare) != len(left):
+            if residual:
+                if any(a.attr in ("__init__", "__enter__", "__exit__") for a in left) or len(bare) != len(left) + len(escapes) + 1:
+                    del self.stats["sites"][before:]
+                    continue
+                left = [a for a in left if a.attr not in residual]
+            elif any(a.attr in methods for a in left) or len(bare) != len(left):
                 del self.stats["sites"][before:]
                 continue
             fields = fieldnames
@@ -1139,7 +1210,7 @@ class Inliner:
 
             class F(ast.NodeTransformer):
                 def visit_Attribute(self_, node):
-                    if isinstance(node.value, ast.Name) and node.value.id == v:
+                    if isinstance(node.value, ast.Name) and node.value.id == v and node.attr in fields:
                         return ast.copy_location(ast.Name(id=fields[node.attr], ctx=node.ctx), node)
                     return self_.generic_visit(node)
             F().visit(trial)
@@ -1335,7 +1406,7 @@ class Inliner:
             # <object>.helper(...): a method outside the inventory whose name is defined exactly once in the package (and is nobody's
             # attribute otherwise) can only be that one
             cands = [q for q, e in self.index.items() if e[1] is not None and q.endswith("." + f.attr) and q not in self.known]
-            if len(cands) == 1 and not any(q.endswith("." + f.attr) for q in self.known):
+            if len(cands) == 1 and not any(q.endswith("." + f.attr) for q in self.known) and f.attr not in _BUILTIN_METHOD_NAMES:
                 cn = cands[0].split(".")[-2]
                 decs = [ast.unparse(d) for d in self.index[cands[0]][0].decorator_list]
                 if "staticmethod" not in decs and "classmethod" not in decs and not self._subs.get(cn) and "property" not in " ".join(decs):
